@@ -125,6 +125,9 @@ func apiRun(c *core.Ctx, k apiCase, prop string) {
 func init() {
 	reg := func(prop string, udp bool) {
 		core.RegisterExtra(prop, func(c *core.Ctx) {
+			if !stageOn("api") { // development switch (VH_ONLY), see c02_flow.go
+				return
+			}
 			c.Correspondence("API stage: delivery oracle at apis/client DialContext / apis/server Accept conns in HANDSHAKE_STANDARD and HANDSHAKE_NO_WAIT")
 			n := c.N(10, 120)
 			cases := make([]apiCase, n)
